@@ -161,6 +161,14 @@ CORRUPTIONS: Dict[str, List[Tuple[str, Callable[[Trace], Optional[Trace]], str]]
             None if not (tr[0].get("app", {}).get("raise_at", "none") != "none" and tr[1].get("called", 0) > 0) else
             [tr[0], dict(tr[1], exc="")]), "failure-swallowed"),
     ],
+    "C16W": [
+        ("second worker's response one byte longer", lambda tr: (
+            None if len(tr) != 4 else
+            tr[:3] + [dict(tr[3], resp=dict(tr[3]["resp"], total=tr[3]["resp"]["total"] + 1))]), "pair-differs"),
+        ("second worker's sends overlapped", lambda tr: (
+            None if len(tr) != 4 or not tr[3]["resp"]["serial"] else
+            tr[:3] + [dict(tr[3], resp=dict(tr[3]["resp"], serial=False))]), "pair-differs"),
+    ],
     "C08": [
         ("huge amount held", flip(lambda e: e["e"] == "quiescent" and e.get("now", 0) >= 0, "held", 900000000), "held-unbounded"),
     ],
